@@ -522,7 +522,7 @@ func loadObjectFromStdin(
 
 	var err error
 	view, ok := scope.Global().TemporaryTables.Load(stdin.String())
-	if !ok || (forUpdate && !view.FileInfo.ForUpdate) {
+	if !ok || (forUpdate && !scope.Tx.stdinIsLocked) {
 		if forUpdate {
 			if err = scope.Tx.LockStdinContext(ctx); err != nil {
 				return nil, err
